@@ -67,3 +67,91 @@ Theorem C10_sup_sofo_shutdown_covers_all : forall k s name pid reason now s' t r
   shut s' = true -> t = map fst (pids s') /\ (forall p, In p t -> In p (wait s')).
 Proof. exact sofo_shutdown_covers_all. Qed.
 Print Assumptions C10_sup_sofo_shutdown_covers_all.
+
+(* ---- LinkParent closure over arbitrary forests (Tree/): the terminations that bypass the supervisor's own
+   protocol.  Model Tree/Model.v: unbounded forest built by spawn steps, any process may stop at any time for
+   any reason (kill, error, panic, failed init after k children), unregister tells the link consumers with the
+   dead pid as sender, actors trap only exits that do not come from their parent, supervisors shut down
+   (wait set) or are bypassed, pools die at once. *)
+From Ergo Require Import Tree.Model Tree.Proofs.
+Local Close Scope Z_scope.
+Local Open Scope nat_scope.
+
+(* (i) closure, every reachable state of every forest under every schedule: a LinkParent child of a dead
+   process is itself no longer registered, or holds a pending exit signal FROM ITS PARENT, or is a supervisor
+   in its shutdown protocol (whose wait-set members are in the same situation: Inv2) *)
+Theorem C10_tree_closure_invariant : forall s, reach faithful [] s -> Inv s.
+Proof. exact reach_Inv. Qed.
+Print Assumptions C10_tree_closure_invariant.
+
+Theorem C10_tree_step_preserves : forall s l s', Inv s -> step faithful s l = Some s' -> Inv s'.
+Proof. exact step_Inv. Qed.
+Print Assumptions C10_tree_step_preserves.
+
+(* such a pending signal cannot be trapped; one from anybody else can *)
+Theorem C10_tree_parent_exit_is_fatal : forall s i pi f rest d,
+  get s i = Some pi -> st pi = Alive -> knd pi = KActor -> mbox pi = f :: rest -> parent pi = Some f ->
+  consume s i d = Some (upd s i (fun p => set_st p (Dying false))).
+Proof. exact parent_exit_is_fatal. Qed.
+Print Assumptions C10_tree_parent_exit_is_fatal.
+
+Theorem C10_tree_foreign_exit_is_trapped : forall s i pi f rest d,
+  get s i = Some pi -> st pi = Alive -> knd pi = KActor -> mbox pi = f :: rest -> parent pi <> Some f -> trap pi = true ->
+  consume s i d = Some (upd s i (fun p => set_mbox p rest)).
+Proof. exact foreign_exit_is_trapped. Qed.
+Print Assumptions C10_tree_foreign_exit_is_trapped.
+
+(* (ii) no orphans: at quiescence nobody below a dead process (LinkParent edges, any depth) is alive; trapping
+   children and nested supervisors included (iv) *)
+Theorem C10_tree_no_orphans_at_quiescence : forall s, Inv s -> quiescent s = true ->
+  forall a d, dead s a -> lp_desc s a d -> dead s d.
+Proof. exact no_orphans_at_quiescence. Qed.
+Print Assumptions C10_tree_no_orphans_at_quiescence.
+
+(* (iii) progress, any configuration: every internal step lowers mu = (N+1) * (3 per live process, 2 per
+   shutting supervisor, 1 per process not yet unregistered) + pending signals; a run of internal steps is not
+   longer than mu; a state without an enabled internal step is quiescent (and conversely) *)
+Theorem C10_tree_internal_step_decreases : forall cf s l s',
+  internal l = true -> step cf s l = Some s' -> mu s' < mu s.
+Proof. exact internal_step_decreases. Qed.
+Print Assumptions C10_tree_internal_step_decreases.
+
+Theorem C10_tree_internal_run_bound : forall cf ls s s', Forall (fun l => internal l = true) ls ->
+  run cf s ls = Some s' -> length ls + mu s' <= mu s.
+Proof. exact internal_run_bound. Qed.
+Print Assumptions C10_tree_internal_run_bound.
+
+Theorem C10_tree_stuck_is_quiescent : forall cf s,
+  (forall l, internal l = true -> step cf s l = None) -> quiescent s = true.
+Proof. exact stuck_is_quiescent. Qed.
+Print Assumptions C10_tree_stuck_is_quiescent.
+
+Theorem C10_tree_quiescent_is_stuck : forall cf s l, quiescent s = true -> internal l = true -> step cf s l = None.
+Proof. exact quiescent_is_stuck. Qed.
+Print Assumptions C10_tree_quiescent_is_stuck.
+
+(* all together: from any state satisfying the invariant (any reachable one) the system settles within mu
+   steps and then has no orphan *)
+Theorem C10_tree_settle_no_orphans : forall s, Inv s ->
+  let s' := drive faithful (mu s) s in
+  quiescent s' = true /\ Inv s' /\ (forall a d, dead s' a -> lp_desc s' a d -> dead s' d).
+Proof. exact settle_no_orphans. Qed.
+Print Assumptions C10_tree_settle_no_orphans.
+
+(* (v) why the sender must be the parent: with the grandparent as sender (unregister path, init-failure path) a
+   trapping child survives its dead parent in a quiescent state *)
+Theorem C10_tree_sender_grandparent_refuted :
+  exists s, reach (mkCfg FromParent FromSelf true) [] s /\ quiescent s = true /\ dead s 1 /\ lp_desc s 1 2 /\ live s 2.
+Proof. exact sender_grandparent_refuted. Qed.
+Print Assumptions C10_tree_sender_grandparent_refuted.
+
+Theorem C10_tree_init_sender_grandparent_refuted :
+  exists s, reach (mkCfg FromSelf FromParent true) [] s /\ quiescent s = true /\ dead s 1 /\ lp_desc s 1 2 /\ live s 2.
+Proof. exact init_sender_grandparent_refuted. Qed.
+Print Assumptions C10_tree_init_sender_grandparent_refuted.
+
+(* the defect repaired in node.spawnMember (failed init told the LinkChild children only) *)
+Theorem C10_tree_init_failure_without_consumers_refuted :
+  exists s, reach (mkCfg FromSelf FromSelf false) [] s /\ quiescent s = true /\ dead s 0 /\ lp_desc s 0 1 /\ live s 1.
+Proof. exact init_failure_without_consumers_refuted. Qed.
+Print Assumptions C10_tree_init_failure_without_consumers_refuted.
